@@ -433,6 +433,10 @@ func (p *Prog) checkCodecPairing(c *Check) {
 		c.Fn(qname(enc))
 		c.Fn(qname(d))
 		pos := p.Pos(enc.Pos())
+		if t := delegateDecoder(d); t != d {
+			d = t // `return (*U)(v).UnmarshalBinary(data)`: the body that decodes is U's
+			c.Fn(qname(d))
+		}
 		data := d.Params[1]
 		epr := NewProver(p, enc)
 		// the encoder writes whenever the buffer has room (shared with C10 R10.6)
@@ -688,17 +692,14 @@ func (p *Prog) checkCodecPairing(c *Check) {
 					if len(em.call.Call.Args) == 0 {
 						continue
 					}
-					v := stripConvs(em.call.Call.Args[0])
-					if ix, ok := v.(*ssa.Index); ok && ix.X == ssa.Value(enc.Params[0]) {
-						if k, isC := constInt(ix.Index); isC {
-							order = append(order, k)
-						}
-					}
-					if ld, ok := v.(*ssa.UnOp); ok && ld.Op == token.MUL {
-						if ia, ok := ld.X.(*ssa.IndexAddr); ok {
-							if k, isC := constInt(ia.Index); isC {
-								order = append(order, k)
-							}
+					// the emitted value's key in the encoder's own terms: "p:<receiver>[k]" for element k of the
+					// by-value receiver (read in place, through its spilled copy, or through a component accessor)
+					k := epr.key(stripConvs(em.call.Call.Args[0]))
+					pre := "p:" + enc.Params[0].Name() + "["
+					if strings.HasPrefix(k, pre) && strings.HasSuffix(k, "]") {
+						var idx int64
+						if _, err := fmt.Sscanf(k[len(pre):], "%d]", &idx); err == nil {
+							order = append(order, idx)
 						}
 					}
 				}
